@@ -19,7 +19,9 @@ def factsTx : Params where
   maxPlaintext := Facts.tlcp.maxPlaintext
   maxCiphertext := Facts.tlcp.maxCiphertext
   boostThreshold := Facts.tlcp.recordSizeBoostThreshold
-  pktGuard := Facts.tlcp.mpsPktGuard
+  -- not a named constant of the source: the literal of the tree, tied by `Tie.RecordSize.Tlcp`
+  -- (translation of `maxPayloadSizeForWrite`), not by the text-matching fact `mpsPktGuard`
+  pktGuard := treePktGuard
   aeadExplicit := Facts.tlcp.aeadNonceLength - Facts.tlcp.noncePrefixLength
   -- the GCM tag length is a property of crypto/cipher, not of this repository; the
   -- correspondence check compares it with the real `encrypt` on every run
